@@ -84,6 +84,19 @@ func (t *RTPTransceiver) getCodecs() []RTPCodecParameters {
 			if codec.PayloadType == 0 {
 				codec.PayloadType = c.PayloadType
 			}
+			// Several preferences can resolve to the same negotiated codec (e.g. H264
+			// profiles that only partially match it), a payload type is listed once.
+			alreadyListed := false
+			for _, filteredCodec := range filteredCodecs {
+				if filteredCodec.PayloadType == codec.PayloadType {
+					alreadyListed = true
+
+					break
+				}
+			}
+			if alreadyListed {
+				continue
+			}
 			codec.RTCPFeedback = rtcpFeedbackIntersection(codec.RTCPFeedback, c.RTCPFeedback)
 			filteredCodecs = append(filteredCodecs, codec)
 		}
